@@ -240,6 +240,13 @@ func (r *rw) rewriteNode(n ast.Node) (string, bool) {
 		if _, ok := x.Stmt.(*ast.SelectStmt); ok {
 			r.errorf(x, "labeled select not supported")
 		}
+		if rs, ok := x.Stmt.(*ast.RangeStmt); ok {
+			if t := r.info.TypeOf(rs.X); t != nil {
+				if _, ok := t.Underlying().(*types.Map); ok {
+					r.errorf(x, "labeled range over map not supported")
+				}
+			}
+		}
 		return "", false
 	case *ast.SendStmt:
 		r.count("send")
@@ -278,6 +285,31 @@ func (r *rw) rewriteNode(n ast.Node) (string, bool) {
 		if t := r.info.TypeOf(x.X); t != nil {
 			if _, ok := t.Underlying().(*types.Chan); ok {
 				r.errorf(x, "range over channel not supported")
+			}
+			if mt, ok := t.Underlying().(*types.Map); ok {
+				// map iteration order is runtime-random: iterate sorted keys
+				// (a legal order) so that one seed is one execution.
+				r.count("maprange")
+				kt := r.typeStr(mt.Key())
+				var b strings.Builder
+				fmt.Fprintf(&b, "{ __m := %s; for _, __mk := range simrt.SortedKeys(__m).([]%s) { simrt.Point(%q); ", r.render(x.X), kt, r.label(x))
+				tok := x.Tok.String()
+				if x.Key != nil && !isBlank(x.Key) {
+					fmt.Fprintf(&b, "%s %s __mk; ", r.render(x.Key), tok)
+				}
+				if x.Value != nil && !isBlank(x.Value) {
+					if tok == ":=" {
+						fmt.Fprintf(&b, "%s, __mok := __m[__mk]; if !__mok { continue }; ", r.render(x.Value))
+					} else {
+						fmt.Fprintf(&b, "var __mok bool; %s, __mok = __m[__mk]; if !__mok { continue }; ", r.render(x.Value))
+					}
+				} else {
+					b.WriteString("if _, __mok := __m[__mk]; !__mok { continue }; ")
+				}
+				b.WriteString("\n")
+				b.WriteString(r.renderList(x.Body.List))
+				b.WriteString("} }")
+				return b.String(), true
 			}
 		}
 		return "", false
